@@ -85,7 +85,10 @@ Definition chunk_binary_search (chunks : list chunk) (p : Z) : outcome (option Z
 (* iterate_till_point(iter, slot, block_hash): [cur] is the peeked block, [rest]
    what follows it.
      while block.slot() < slot { iter.next(); match iter.peek() {
-          Some(Ok(data)) => block = decode(data), Some(Err(_)) | None => return Ok(iter) } }
+          Some(Ok(data)) => block = decode(data), Some(Err(_)) => return Ok(iter),
+          None if block_hash.is_empty() => return Ok(iter),
+          None => return Err(CannotFindBlock) } }      (after commit 0a823ff2; before it
+                                                        None also returned Ok(iter))
      if (block_hash.is_empty() && block.slot() >= slot)
         || (block.hash() == block_hash && block.slot() == slot) { Ok(iter) }
      else { Err(CannotFindBlock) }                                                        *)
@@ -93,7 +96,7 @@ Fixpoint till_loop (cur : block) (rest : list block) (slot hash : Z) : outcome (
   if bslot cur <? slot then
     match rest with
     | b' :: rest' => till_loop b' rest' slot hash
-    | [] => Ok []
+    | [] => if hash =? EMPTY_HASH then Ok [] else Err E_CANNOT_FIND   (* None *)
     end
   else if ((hash =? EMPTY_HASH) && (slot <=? bslot cur)) || ((bhash cur =? hash) && (bslot cur =? slot))
        then Ok (cur :: rest)
@@ -132,3 +135,34 @@ Definition get_tip (d : db) : option block :=
   | [] => None
   | c :: _ => last (map Some c) None
   end.
+
+(* ------------------------------------------------------------------------------
+   Specification side (independent of the search code above). *)
+
+(* the chunk files that count as immutable: every one but the greatest name, by
+   increasing name *)
+Definition considered (d : db) : list chunk :=
+  map (lookup d) (removelast (sort_names (map fst d))).
+
+(* the immutable chain *)
+Definition chain (d : db) : list block := concat (considered d).
+
+Fixpoint increasing (l : list Z) : Prop :=
+  match l with
+  | [] => True
+  | x :: r => Forall (fun y => x < y) r /\ increasing r
+  end.
+
+(* well-formed: no considered chunk file is empty, slots strictly increase along the chain *)
+Definition wf_db (d : db) : Prop :=
+  Forall (fun c => c <> []) (considered d) /\ increasing (map bslot (chain d)).
+
+(* the suffix of a block list from the first block at or after a slot *)
+Fixpoint suffix_from_slot (s : Z) (l : list block) : list block :=
+  match l with
+  | [] => []
+  | b :: r => if bslot b <? s then suffix_from_slot s r else l
+  end.
+
+Definition first_slot (l : list block) : option Z :=
+  match l with [] => None | b :: _ => Some (bslot b) end.
